@@ -1,4 +1,5 @@
 import HioModel.Tcp.Lemmas
+import HioModel.Tcp.ClientStream
 /-!
 # C09 — TCP/TLS byte streams are delivered exactly, in order, under partial I/O
 
@@ -75,6 +76,19 @@ theorem stream_fails_if_wirelog_needs_peer (k : Kind) :
     cases k <;> simp [run, step, init, serviceReceives, recvLoop, Conn.guard, Conn.wlFailsRx, h]
   · intro h
     cases k <;> simp [run, step, init, serviceSends, send, finishSend, Conn.guard, Conn.wlFailsTx, h]
+
+/-- C09.1 over the WHOLE life of a client object: whatever was handed to `tx` since construction — also before the
+connection was up — is, in order, what the sockets of this client have accepted so far followed by what is still queued;
+connect attempts that are refused or stay in progress, aborted TLS handshakes, the reconnect timer, explicit
+`reopen`/`close`, re-winds: nothing of `.txbs` is lost or duplicated (`Client`/`ClientTls`, any `reconnectable`/`tymeout`) -/
+theorem client_stream_prefix (tls reconnectable : Bool) (tymeout : Nat) (ops : List COp) :
+    (Cli.run (Cli.make tls reconnectable tymeout) ops).io.kacc ++ (Cli.run (Cli.make tls reconnectable tymeout) ops).io.txbs
+      = cpayload ops := by
+  simpa using (Cli.run_io ops (Cli.make_io tls reconnectable tymeout)).tx
+
+/-- non-vacuity: bytes queued before the connection is up survive a refused connect and an aborted handshake -/
+example : (Cli.run (Cli.make true true 8) [.tx [1, 2], .connect 111 none, .connect 0 (some (.fault 104)), .tx [3],
+    .connect 0 none, .connect 0 (some .ok), .feed [.acc 9] [], .service 0 none]).io.kacc = [1, 2, 3] := by decide
 
 /-- the same invariants hold from ANY state that satisfies them (e.g. mid-history), not only from a fresh connection -/
 theorem stream_prefix_from (c : Conn) (p : Bytes) (h : Inv c p) (ops : List Op) : Inv (run c ops) (p ++ payload ops) :=
